@@ -224,13 +224,13 @@ def Term.fromStrPinned (s : Text) : R Term := Term.fromStrWith true s
 
 mutual
 def showTerm (esc : Char → Bool) : Term → Text
-  | .mk name quoted args =>
-    (if quoted then showQuoted esc name else name) ++
-      (match args with
-       | .nil => []
-       | .cons t r => '(' :: (showTerm esc t ++ showArgsTail esc r ++ [')']))
-def showArgsTail (esc : Char → Bool) : Terms → Text
+  | .mk name quoted args => (if quoted then showQuoted esc name else name) ++ showArgs esc args
+/-- nothing for an empty argument list, else `(a, b, …)` -/
+def showArgs (esc : Char → Bool) : Terms → Text
   | .nil => []
+  | .cons t r => '(' :: (showTerm esc t ++ showArgsTail esc r)
+def showArgsTail (esc : Char → Bool) : Terms → Text
+  | .nil => [')']
   | .cons t r => ',' :: ' ' :: (showTerm esc t ++ showArgsTail esc r)
 end
 
@@ -315,6 +315,10 @@ def showType? (esc : Char → Bool) : DataType → Option Text
   | .struct _ => some "Struct".toList | .map _ _ => some "Map".toList | .union _ _ => some "Union".toList
   | .dictionary _ _ => some "Dictionary".toList | .largeList _ => some "LargeList".toList | .list _ => some "List".toList
   | .interval _ => none | .runEndEncoded _ _ => none
+
+/-- the types `PrettyFieldDataType` can write -/
+def printable : DataType → Bool
+  | .interval _ => false | .runEndEncoded _ _ => false | _ => true
 
 def showType (esc : Char → Bool) (dt : DataType) : Text := (showType? esc dt).getD "<unknown marrow data type>".toList
 
